@@ -95,56 +95,130 @@ Section N.
     - apply gen_ids_aux_spec in H; [|constructor]. exact H.
   Qed.
 
-  Lemma dict_set_keys k v m :
-    NoDup (map fst m) -> NoDup (map fst (dict_set k v m)).
+  Lemma has_key_spec k m : has_key k m = true <-> In k (map fst m).
   Proof.
-    induction m as [|[k' v'] r IH]; simpl; intros ND.
-    - constructor; [intros []|constructor].
-    - destruct (eqbL k k') eqn:E.
-      + apply eqbL_spec in E. subst. exact ND.
-      + inversion ND; subst. simpl. constructor; auto.
-        intros C. apply H1. clear - C E. induction r as [|[k2 v2] r IH]; simpl in *.
-        * destruct C as [C|[]]. subst. rewrite eqbL_refl in E. discriminate.
-        * destruct (eqbL k k2) eqn:E2; simpl in *.
-          -- apply eqbL_spec in E2. subst k2. destruct C as [C|C]; [|right; exact C].
-             subst. rewrite eqbL_refl in E. discriminate.
-          -- destruct C as [C|C]; [left; exact C|right; apply IH; exact C].
+    unfold has_key. rewrite existsb_exists. split.
+    - intros [e [He Hk]]. apply eqbL_spec in Hk. subst. apply in_map. exact He.
+    - intros H. apply in_map_iff in H. destruct H as [e [<- He]]. exists e. split; auto. apply eqbL_refl.
   Qed.
 
-  (* task names within a module are always pairwise distinct (it is a dict) ... *)
+  Lemma NoDup_app_disjoint {A} (l1 l2 : list A) :
+    NoDup l1 -> NoDup l2 -> (forall x, In x l2 -> ~ In x l1) -> NoDup (l1 ++ l2).
+  Proof.
+    induction l1 as [|a r IH]; simpl; intros N1 N2 D; auto.
+    inversion N1; subst. constructor.
+    - intros C. apply in_app_or in C. destruct C as [C|C]; [auto|]. apply (D a C). left; reflexivity.
+    - apply IH; auto. intros x Hx C. apply (D x Hx). right; exact C.
+  Qed.
+
+  (* task names within a module are pairwise distinct, whatever the iteration order of the set
+     of preliminary names: a name that is already taken is an error (F7, repaired) ... *)
   Theorem parse_names_keys_nodup ds order : forall acc m,
     NoDup (map fst acc) -> parse_names dec_nat ds order acc = Some m -> NoDup (map fst m).
   Proof.
     induction order as [|name r IH]; intros acc m ND H; cbn [parse_names] in H.
     - inversion H; subst; auto.
-    - destruct (group_of ds name) as [|[i0 d0] [|e g]]; cbv beta iota in H.
-      + eapply IH; eauto.
-      + eapply IH; [|exact H]. apply dict_set_keys. exact ND.
-      + destruct (gen_ids dec_nat ((i0, d0) :: e :: g)) as [ids|] eqn:G; [|discriminate].
-        eapply IH; [|exact H]. unfold dict_update.
-        clear - ND. revert acc ND. induction ids as [|x ids IHi]; intros acc ND; simpl; auto.
-        apply IHi. apply dict_set_keys. exact ND.
+    - set (new := match group_of ds name with
+                  | [] => Some []
+                  | [(idx, _)] => Some [(name, idx)]
+                  | g => gen_ids dec_nat g
+                  end) in *.
+      destruct new as [ids|] eqn:En; [|discriminate].
+      destruct (existsb (fun e => has_key (fst e) acc) ids) eqn:Ex; [discriminate|].
+      eapply IH; [|exact H]. rewrite map_app.
+      apply NoDup_app_disjoint; auto.
+      + (* the new names are distinct among themselves *)
+        unfold new in En. destruct (group_of ds name) as [|[i0 d0] [|e g]] eqn:G.
+        * inversion En; subst. constructor.
+        * inversion En; subst. simpl. constructor; [intros []|constructor].
+        * apply gen_ids_spec in En. destruct En as [A _]. exact A.
+      + intros x Hx C. apply in_map_iff in Hx. destruct Hx as [e [<- He]].
+        assert (existsb (fun e0 => has_key (fst e0) acc) ids = true).
+        { apply existsb_exists. exists e. split; auto. apply has_key_spec. exact C. }
+        congruence.
+  Qed.
+
+  (* no function is lost: every function of every name group contributes exactly one entry *)
+  Definition group_sizes (ds : list dtask) (order : list (list N)) : nat :=
+    fold_right (fun name n => (length (group_of ds name) + n)%nat) 0%nat order.
+
+  Theorem parse_names_length ds order : forall acc m,
+    parse_names dec_nat ds order acc = Some m -> length m = (length acc + group_sizes ds order)%nat.
+  Proof.
+    induction order as [|name r IH]; intros acc m H; cbn [parse_names] in H.
+    - inversion H; subst. simpl. lia.
+    - set (new := match group_of ds name with
+                  | [] => Some []
+                  | [(idx, _)] => Some [(name, idx)]
+                  | g => gen_ids dec_nat g
+                  end) in *.
+      destruct new as [ids|] eqn:En; [|discriminate].
+      destruct (existsb (fun e => has_key (fst e) acc) ids); [discriminate|].
+      apply IH in H. rewrite H, app_length. cbn [group_sizes fold_right].
+      assert (L : length ids = length (group_of ds name)).
+      { unfold new in En. destruct (group_of ds name) as [|[i0 d0] [|e g]] eqn:G.
+        - inversion En; reflexivity.
+        - inversion En; reflexivity.
+        - apply gen_ids_spec in En. destruct En as [_ B].
+          rewrite <- (map_length snd ids), B, map_length. reflexivity. }
+      fold (group_sizes ds r). lia.
+  Qed.
+
+  Lemma nodupL_spec l : nodupL l = true <-> NoDup l.
+  Proof.
+    induction l as [|x r IH]; simpl.
+    - split; [constructor|auto].
+    - rewrite andb_true_iff, negb_true_iff, IH. split.
+      + intros [A B]. constructor; auto. intros C.
+        assert (existsb (eqbL x) r = true).
+        { apply existsb_exists. exists x. split; auto. apply eqbL_refl. }
+        congruence.
+      + intros H. inversion H; subst. split; auto. apply not_true_is_false. intros C.
+        apply existsb_exists in C. destruct C as [y [Hy E]]. apply eqbL_spec in E. subst. auto.
+  Qed.
+
+  (* ... and so are the ids of ALL tasks of a module, prefixed and decorated, or the collection
+     fails (F8, repaired) *)
+  Theorem module_tasks_nodup prefixed ds order l :
+    module_tasks dec_nat prefixed ds order = Some l -> NoDup l.
+  Proof.
+    unfold module_tasks. destruct (parse_names dec_nat ds order []) as [m|]; [|discriminate].
+    destruct (nodupL (prefixed ++ map fst m)) eqn:N; [|discriminate].
+    intros H. inversion H; subst. apply nodupL_spec. exact N.
+  Qed.
+
+  Theorem module_tasks_length prefixed ds order l :
+    module_tasks dec_nat prefixed ds order = Some l ->
+    length l = (length prefixed + group_sizes ds order)%nat.
+  Proof.
+    unfold module_tasks. destruct (parse_names dec_nat ds order []) as [m|] eqn:P; [|discriminate].
+    destruct (nodupL (prefixed ++ map fst m)); [|discriminate].
+    intros H. inversion H; subst. rewrite app_length, map_length.
+    rewrite (parse_names_length ds order [] m P). simpl. reflexivity.
   Qed.
 End N.
 
-(* ---- ... but functions can get lost or doubled (false of the unchanged code) *)
+(* ---- before the repairs: functions got lost or doubled *)
 Definition dec_nat1 (n : nat) : list N := [N.of_nat (48 + n)].     (* one digit is enough here *)
 Definition s_foo : list N := [102; 111; 111]%N.
 Definition s_foo0 : list N := [102; 111; 111; 91; 48; 93]%N.       (* "foo[0]" *)
 
-(* F7: @task(name="foo[0]") next to two tasks named foo: three functions, two names, no error;
-   which function survives under "foo[0]" depends on the iteration order of a set *)
-Theorem name_collision_refuted :
+(* F7 (repaired): @task(name="foo[0]") next to two tasks named foo: three functions, two names, no
+   error; which function survived under "foo[0]" depended on the iteration order of a set.  Now
+   both orders are an error. *)
+Theorem name_collision_regression :
   let ds := [mkD s_foo (Some s_foo0) None [] []; mkD s_foo None None [] []; mkD s_foo None None [] []] in
-  parse_names dec_nat1 ds [s_foo0; s_foo] [] = Some [(s_foo0, 1%nat); ([102; 111; 111; 91; 49; 93]%N, 2%nat)] /\
-  parse_names dec_nat1 ds [s_foo; s_foo0] [] = Some [(s_foo0, 0%nat); ([102; 111; 111; 91; 49; 93]%N, 2%nat)].
-Proof. vm_compute. split; reflexivity. Qed.
+  parse_names_old dec_nat1 ds [s_foo0; s_foo] [] = Some [(s_foo0, 1%nat); ([102; 111; 111; 91; 49; 93]%N, 2%nat)] /\
+  parse_names_old dec_nat1 ds [s_foo; s_foo0] [] = Some [(s_foo0, 0%nat); ([102; 111; 111; 91; 49; 93]%N, 2%nat)] /\
+  parse_names dec_nat1 ds [s_foo0; s_foo] [] = None /\ parse_names dec_nat1 ds [s_foo; s_foo0] [] = None.
+Proof. vm_compute. repeat split; reflexivity. Qed.
 
-(* F8: a prefixed function and a decorated one with the same name: two tasks, one id *)
-Theorem prefixed_vs_decorated_refuted :
+(* F8 (repaired): a prefixed function and a decorated one with the same name: two tasks, one id *)
+Theorem prefixed_vs_decorated_regression :
   let tx := [116; 97; 115; 107; 95; 120]%N in     (* "task_x" *)
-  module_tasks dec_nat1 [tx] [mkD [102]%N (Some tx) None [] []] [tx] = Some [tx; tx].
-Proof. vm_compute. reflexivity. Qed.
+  module_tasks_old dec_nat1 [tx] [mkD [102]%N (Some tx) None [] []] [tx] = Some [tx; tx] /\
+  module_tasks dec_nat1 [tx] [mkD [102]%N (Some tx) None [] []] [tx] = None.
+Proof. vm_compute. split; reflexivity. Qed.
 
 (* when all decorated functions of a module have distinct names nothing is lost *)
 Example distinct_names_lossless :
